@@ -12,7 +12,7 @@ import ast
 
 from ..cfg import cfg_of
 from ..flow import deref, flow_of, path_of
-from ..loader import FUNC, AnalysisError, dotted, last_name, loc, short, walk_local
+from ..loader import FUNC, AnalysisError, dotted, enclosing_stmt, last_name, loc, short, walk_local
 from ..util import REPEX, SCHED, SETUP, keys_chain, kwarg
 from ..variants import B, K
 
@@ -384,6 +384,49 @@ def r186(ctx):
             ctx.ok(rid, c, "every name of every ensemble's engine list is collected (skipped only when already collected) and tested against the configuration")
 
 
+def r189(ctx):
+    """Initialisation demands no more of a configuration than check_config guarantees. check_config
+    rejects only *fewer* shooting moves than interfaces (surplus moves are legal and occur in the
+    shipped examples), so nothing on the initialisation path may require the two lists to be
+    equally long: no `zip(..., strict=True)` (nor an equality assert) between a list of the
+    ensembles / interfaces and the list of moves."""
+    rid = "R-18.9"
+    tree = ctx.tree
+    cc = tree.func(SETUP, "check_config")
+    equal_enforced = any(isinstance(x, ast.Compare) and len(x.ops) == 1 and isinstance(x.ops[0], (ast.NotEq, ast.Eq)) and "shooting_moves" in ast.unparse(x) and "interfaces" in ast.unparse(x) and "len(" in ast.unparse(x) for x in walk_local(cc))
+    n = 0
+    for rel in (REPEX, SETUP, SCHED, "infretis/core/tis.py"):
+        for m, q, f in tree.all_funcs([rel]):
+            fl = None
+            for c in walk_local(f):
+                if not (isinstance(c, ast.Call) and last_name(c) == "zip"):
+                    continue
+                n += 1
+                strict = any(k.arg == "strict" and isinstance(k.value, ast.Constant) and k.value.value is True for k in c.keywords)
+                if not strict:
+                    continue
+                fl = fl or flow_of(f)
+                txts = []
+                for a in c.args:
+                    t = ast.unparse(a)
+                    if isinstance(a, ast.Name):
+                        try:
+                            a2, _ = deref(fl, a, fl.cfg.node_of(enclosing_stmt(c)))
+                            t += " " + ast.unparse(a2)
+                        except Exception:
+                            pass
+                    txts.append(t)
+                moves = [t for t in txts if "mc_moves" in t or "shooting_moves" in t]
+                others = [t for t in txts if t not in moves]
+                if moves and others and not equal_enforced:
+                    ctx.bad(rid, c, f"{q} pairs `{short(c.args[0], 30)}` with the list of moves by `zip(..., strict=True)`: check_config accepts configurations with more shooting moves than interfaces, and those now raise ValueError during initialisation (zip() argument is longer) - an accepted configuration does not initialise", construct=f"{q}: strict zip with the list of moves")
+                else:
+                    ctx.ok(rid, c, f"{q}: strict zip over lists whose equal length is guaranteed")
+    if n == 0:
+        raise AnalysisError("R-18.9: no zip() found on the initialisation path (cannot decide)")
+    ctx.ok(rid, cc, f"{n} zip() calls on the scheduler / initialisation path examined; equality of moves and interfaces enforced by check_config: {equal_enforced}")
+
+
 def run(ctx):
     ctx.rule("R-18.5", "every configuration key is validated and used under the same section path", floor=20)
     ctx.rule("R-18.4", "no `for` variable of the configuration checks is read after its loop has ended", floor=3)
@@ -397,6 +440,8 @@ def run(ctx):
     from . import c08 as _c08
     from .shared import RuleProxy as _RP18
     ctx.attempt(_c08.r84, _RP18(ctx, "R-18.8", " (an accepted restart configuration then dies in load_paths_from_disk with an AssertionError instead of being refused up front)"))
+    ctx.rule("R-18.9", "initialisation requires no more than check_config guarantees: no strict zip / equal-length demand between ensembles and the list of moves (surplus moves are accepted)", floor=1)
+    ctx.attempt(r189, ctx)
     ctx.attempt(r181, ctx)
     ctx.attempt(r182, ctx)
     ctx.attempt(r183, ctx)
@@ -408,6 +453,8 @@ def run(ctx):
 
 
 VARIANTS = [
+    B("c18-ensembles-zipped-strictly-with-moves", REPEX, "        for i, ens_intf in enumerate(ens_intfs):", "        for i, (ens_intf, mc_move) in enumerate(zip(ens_intfs, self.mc_moves, strict=True)):", "R-18.9", control=True, why="seeded C18_m"),
+    K("c18-keep-ensembles-zipped-with-moves", REPEX, "        for i, ens_intf in enumerate(ens_intfs):", "        for i, (ens_intf, mc_move) in enumerate(zip(ens_intfs, self.mc_moves)):"),
     B("c18-restart-refused-only-when-all-paths-missing", SETUP, '        for act in config["current"]["active"]:\n            store_p = os.path.join(load_dir, str(act), "traj.txt")\n            if not os.path.isfile(store_p):\n                return None\n', '        stored = [os.path.isfile(os.path.join(load_dir, str(act), "traj.txt")) for act in config["current"]["active"]]\n        if not any(stored):\n            return None\n', "R-18.8", control=True, why="seeded C18_k"),
     K("c18-keep-restart-refused-when-any-path-missing", SETUP, '        for act in config["current"]["active"]:\n            store_p = os.path.join(load_dir, str(act), "traj.txt")\n            if not os.path.isfile(store_p):\n                return None\n', '        stored = [os.path.isfile(os.path.join(load_dir, str(act), "traj.txt")) for act in config["current"]["active"]]\n        if not all(stored):\n            return None\n'),
     B("c18-cap-lands-on-lambda-minus-one", REPEX, "                lambda_minus_one=self.config[\"simulation\"][\"tis_set\"][\n                    \"lambda_minus_one\"\n                ],\n                cap=self.cap,", "                lambda_minus_one=self.cap,", "R-18.7", control=True, why="seeded C18_j"),
